@@ -5,6 +5,7 @@ package mon
 
 import (
 	"bufio"
+	"bytes"
 	"crypto/sha256"
 	"encoding/binary"
 	"encoding/hex"
@@ -375,4 +376,89 @@ func SortedKeys(m map[string]int64) []string {
 	}
 	sort.Strings(ks)
 	return ks
+}
+
+// Guard hands a byte-slice input to the library the way a caller parsing a frame does: as a sub-slice with spare
+// capacity whose following bytes are live data (here a canary pattern). After the call neither the input bytes nor
+// anything beyond them may have changed: code that appends to a caller's slice, or writes past its length, shows here.
+type Guard struct {
+	buf  []byte
+	n    int
+	orig []byte
+}
+
+const guardTail = 48
+
+func NewGuard(b []byte) *Guard {
+	g := &Guard{buf: make([]byte, len(b)+guardTail), n: len(b), orig: append([]byte{}, b...)}
+	copy(g.buf, b)
+	for i := 0; i < guardTail; i++ {
+		g.buf[len(b)+i] = byte(0xA5 ^ i*7)
+	}
+	return g
+}
+
+// B is the guarded slice (len = len(input), cap = len + tail).
+func (g *Guard) B() []byte { return g.buf[:g.n] }
+
+// Check returns "" when the input and the bytes after it are intact.
+func (g *Guard) Check() string {
+	if !bytes.Equal(g.buf[:g.n], g.orig) {
+		return "the input bytes were modified"
+	}
+	for i := 0; i < guardTail; i++ {
+		if g.buf[g.n+i] != byte(0xA5^i*7) {
+			return fmt.Sprintf("the caller's memory after the input was overwritten (byte %d past the end of a %d-byte slice)", i, g.n)
+		}
+	}
+	return ""
+}
+
+// Guards checks several guards; names[i] labels guard i in the message.
+func Guards(names []string, gs ...*Guard) string {
+	for i, g := range gs {
+		if m := g.Check(); m != "" {
+			return names[i] + ": " + m
+		}
+	}
+	return ""
+}
+
+// Frame lays the given inputs out back to back in one buffer, followed by a canary tail, and returns them as
+// plain sub-slices (so each has spare capacity reaching over its successors, as fields cut out of a received
+// frame do). check() reports any byte of the frame that changed: inputs are read-only to the library.
+func Frame(parts ...[]byte) (slices [][]byte, check func() string) {
+	total := 0
+	for _, p := range parts {
+		total += len(p)
+	}
+	buf := make([]byte, total+guardTail)
+	off := 0
+	for _, p := range parts {
+		copy(buf[off:], p)
+		slices = append(slices, buf[off:off+len(p)])
+		off += len(p)
+	}
+	for i := 0; i < guardTail; i++ {
+		buf[total+i] = byte(0xA5 ^ i*7)
+	}
+	snapshot := append([]byte{}, buf...)
+	return slices, func() string {
+		if bytes.Equal(buf, snapshot) {
+			return ""
+		}
+		for i := range buf {
+			if buf[i] != snapshot[i] {
+				o := 0
+				for pi, p := range parts {
+					if i < o+len(p) {
+						return fmt.Sprintf("byte %d of input %d (of %d inputs laid out back to back) was overwritten: the caller's memory is read-only to the library", i-o, pi, len(parts))
+					}
+					o += len(p)
+				}
+				return fmt.Sprintf("the caller's memory %d bytes past the last input was overwritten", i-total)
+			}
+		}
+		return ""
+	}
 }
